@@ -6,6 +6,7 @@ import (
 	"errors"
 	"fmt"
 	"io"
+	"math/rand"
 	"runtime/debug"
 	"strings"
 	"syscall"
@@ -350,3 +351,155 @@ func srcEnd(s *dataSource) error {
 }
 
 var _ = unsafe.Pointer(nil)
+
+// ---- sessions: one instance skips a sequence of values ------------------------------------------
+
+type SkipSeqCase struct {
+	Seed int64 `json:"seed"`
+	N    int   `json:"n"`
+	Big  bool  `json:"big,omitempty"`
+	Fail bool  `json:"fail,omitempty"` // insert a failing call (on a private copy) before the session to exercise reuse after failure
+}
+
+type seqRes struct {
+	Impl  string `json:"impl"`
+	Shape string `json:"shape"`
+	Oks   []bool `json:"oks"`
+	Ns    []int  `json:"ns"`
+	Rets  []bool `json:"rets"`
+	Panic bool   `json:"panic"`
+}
+
+func runSkipSeqCase(raw json.RawMessage, w *TraceWriter) {
+	var c SkipSeqCase
+	if err := json.Unmarshal(raw, &c); err != nil {
+		panic(err)
+	}
+	rng := rand.New(rand.NewSource(c.Seed))
+	s := &SegBuf{}
+	var ts []int
+	var offs []int
+	for i := 0; i < c.N; i++ {
+		t := allTypes[rng.Intn(len(allTypes))]
+		ts = append(ts, int(t))
+		offs = append(offs, s.Len())
+		vg := &valGen{rng: rng, budget: 3 + rng.Intn(12), bigStr: c.Big}
+		vg.Value(s, t, 1+rng.Intn(3))
+	}
+	offs = append(offs, s.Len())
+	b := s.b
+	var out []seqRes
+	run := func(impl, shape string, next func(k int, t int8) ([]byte, int, error)) {
+		r := seqRes{Impl: impl, Shape: shape}
+		func() {
+			defer func() {
+				if p := recover(); p != nil {
+					r.Panic = true
+				}
+			}()
+			for k, t := range ts {
+				buf, n, err := next(k, int8(t))
+				r.Oks = append(r.Oks, err == nil)
+				r.Ns = append(r.Ns, n)
+				r.Rets = append(r.Rets, buf == nil || (offs[k]+len(buf) <= len(b) && bytes.Equal(buf, b[offs[k]:offs[k]+len(buf)])))
+				if err != nil {
+					break
+				}
+			}
+		}()
+		out = append(out, r)
+	}
+	// BytesSkipDecoder (also after Reset, and after a failed Next on other data when c.Fail)
+	{
+		d := thrift.NewBytesSkipDecoder([]byte{11, 0, 0})
+		if c.Fail {
+			d.Next(thrift.STRING) // fails: truncated
+		}
+		d.Reset(b)
+		run("bytesdec", "reset", func(k int, t int8) ([]byte, int, error) { x, err := d.Next(t); return x, len(x), err })
+		d.Release()
+	}
+	for si, sh := range skipChunkShapes[:5] {
+		if len(b) > 3000 && si >= 3 {
+			break
+		}
+		{
+			src := &dataSource{data: b, chunks: sh.chunks, wd: sh.wd}
+			rd := bufiox.NewDefaultReader(src)
+			d := thrift.NewSkipDecoder(rd)
+			last := 0
+			run("skipdec", sh.name, func(k int, t int8) ([]byte, int, error) {
+				x, err := d.Next(t)
+				cp := append([]byte(nil), x...) // the result is valid until Release: copy first
+				n := rd.ReadLen() - last
+				last = rd.ReadLen()
+				if k%2 == 1 {
+					rd.Release(nil)
+					last = 0
+				}
+				return cp, n, err
+			})
+			d.Release()
+		}
+		{
+			src := &dataSource{data: b, chunks: sh.chunks, wd: sh.wd}
+			d := thrift.NewReaderSkipDecoder(src)
+			if c.Fail {
+				d.Reset(&dataSource{data: []byte{11, 0, 0}})
+				d.Next(thrift.STRING)
+				d.Reset(src)
+			}
+			last := 0
+			run("readerdec", sh.name, func(k int, t int8) ([]byte, int, error) {
+				x, err := d.Next(t)
+				n := src.pos - last
+				last = src.pos
+				return append([]byte(nil), x...), n, err
+			})
+			d.Release()
+		}
+		{
+			src := &dataSource{data: b, chunks: sh.chunks, wd: sh.wd}
+			rd := bufiox.NewDefaultReader(src)
+			br := thrift.NewBufferReader(rd)
+			last := 0
+			run("bufferreader", sh.name, func(k int, t int8) ([]byte, int, error) {
+				err := br.Skip(t)
+				n := rd.ReadLen() - last
+				last = rd.ReadLen()
+				return nil, n, err
+			})
+			br.Recycle()
+		}
+	}
+	{
+		off := 0
+		run("binary", "slice", func(k int, t int8) ([]byte, int, error) {
+			n, err := thrift.Binary.Skip(b[off:], t)
+			off += n
+			return nil, n, err
+		})
+	}
+	rb, _ := json.Marshal(out)
+	w.Ev("skipseq", "ts", ts, "in", s.JSON(), "res", Raw(rb))
+}
+
+var famSkipSeq = Register(&Family{Name: "skipseq-C02", Spec: "Trace_ThriftSkip", Cfg: "Trace_ThriftSkip.cfg",
+	Run: runSkipSeqCase, Env: []string{"VPROP=C02"},
+	Sig: func(raw json.RawMessage, line string) string {
+		why := ""
+		if i := strings.Index(line, " // "); i >= 0 {
+			why = line[i+4:]
+		}
+		impl, _, _ := strings.Cut(why, " ")
+		return "skipseq/" + impl
+	}})
+
+func skipSeqCases(c *Ctx, n int) []json.RawMessage {
+	var out []json.RawMessage
+	rng := rand.New(rand.NewSource(c.Seed*48271 + 202))
+	for i := 0; i < n; i++ {
+		out = append(out, mustJSON(SkipSeqCase{Seed: rng.Int63(), N: 2 + rng.Intn(5), Big: i%5 == 0, Fail: i%3 == 0}))
+	}
+	return out
+}
